@@ -208,64 +208,89 @@ def _disk_encoding(ds):
     return enc
 
 
-def _mpas_ds(case, mesh):
+MPAS_STORES = {"i32f64": (np.int32, np.float64), "i64f64": (np.int64, np.float64), "u32f32": (np.uint32, np.float32)}
+
+
+def mpas_dataset(src, nodes, centres):
+    """PUBLIC (also used by other checks; keep the signature): the in-memory MPAS xr.Dataset of a stored source.
+
+    src: dict of the tables Dialects.tla emits for the routes "mpas" / "mpas_dual" (MpasStored / MpasDualStored):
+         route, verticesOnCell, nEdgesOnCell, cellsOnVertex (1-based, 0 = absent, padding as the dialect says),
+         optional verticesOnEdge, cellsOnEdge, edgesOnCell, cellsOnCell, edgesOnVertex (lists, empty = not
+         supplied), areaCell / areaTriangle / dvEdge / dcEdge (integer tags, stored as tag / AREA_SCALE resp.
+         tag / DIST_SCALE), xyz (bool), centres (bool), store ("i32f64" | "i64f64" | "u32f32", default int32/float64).
+    nodes:   integer direction vectors of the grid's nodes (route "mpas": the MPAS vertices; "mpas_dual": the cells).
+    centres: integer direction vectors of the grid's faces (route "mpas": the cells; "mpas_dual": the vertices).
+    Longitudes / latitudes are stored the MPAS way: radians, longitude in [0, 2 pi).
+    """
     import xarray as xr
 
-    src = case["src"]
     dual = src["route"] == "mpas_dual"
     ds = xr.Dataset()
-    i32 = np.int32
+    ity, fty = MPAS_STORES[src.get("store", "i32f64")]
 
     def radians_0_2pi(dirs):
         lo, la = lonlat(dirs, "p360")
-        return np.radians(lo), np.radians(la)
+        return np.radians(lo).astype(fty), np.radians(la).astype(fty)
+
+    def itab(name, dims):
+        ds[name] = xr.DataArray(np.array(src[name], dtype=np.int64).astype(ity), dims=dims)
 
     if not dual:
-        vlon, vlat = radians_0_2pi(mesh["nodes"])
+        vlon, vlat = radians_0_2pi(nodes)
         ds["lonVertex"] = xr.DataArray(vlon, dims=["nVertices"])
         ds["latVertex"] = xr.DataArray(vlat, dims=["nVertices"])
         if src["xyz"]:
-            u = units(mesh["nodes"])
+            u = units(nodes)
             for k, n in enumerate(["xVertex", "yVertex", "zVertex"]):
-                ds[n] = xr.DataArray(u[:, k].copy(), dims=["nVertices"])
+                ds[n] = xr.DataArray(u[:, k].astype(fty), dims=["nVertices"])
         if src["centres"]:
-            clon, clat = radians_0_2pi(mesh["centres"])
+            clon, clat = radians_0_2pi(centres)
             ds["lonCell"] = xr.DataArray(clon, dims=["nCells"])
             ds["latCell"] = xr.DataArray(clat, dims=["nCells"])
     else:
         # the dual's nodes are the MPAS cells, its faces the MPAS vertices
-        clon, clat = radians_0_2pi(mesh["nodes"])
+        clon, clat = radians_0_2pi(nodes)
         ds["lonCell"] = xr.DataArray(clon, dims=["nCells"])
         ds["latCell"] = xr.DataArray(clat, dims=["nCells"])
         if src["xyz"]:
-            u = units(mesh["nodes"])
+            u = units(nodes)
             for k, n in enumerate(["xCell", "yCell", "zCell"]):
-                ds[n] = xr.DataArray(u[:, k].copy(), dims=["nCells"])
-        vdirs = mesh["centres"]
+                ds[n] = xr.DataArray(u[:, k].astype(fty), dims=["nCells"])
+        vdirs = centres
         if len(vdirs) != len(src["cellsOnVertex"]):
             # regional file: also vertices some of whose cells are absent; place them amid their present cells
-            U = units(mesh["nodes"])
+            U = units(nodes)
             vdirs = [tuple(np.sum([U[c - 1] for c in row if c != 0], axis=0)) for row in src["cellsOnVertex"]]
         vlon, vlat = radians_0_2pi(vdirs)
         ds["lonVertex"] = xr.DataArray(vlon, dims=["nVertices"])
         ds["latVertex"] = xr.DataArray(vlat, dims=["nVertices"])
-    ds["verticesOnCell"] = xr.DataArray(np.array(src["verticesOnCell"], dtype=i32), dims=["nCells", "maxEdges"])
-    ds["nEdgesOnCell"] = xr.DataArray(np.array(src["nEdgesOnCell"], dtype=i32), dims=["nCells"])
-    ds["cellsOnVertex"] = xr.DataArray(np.array(src["cellsOnVertex"], dtype=i32), dims=["nVertices", "vertexDegree"])
+    itab("verticesOnCell", ["nCells", "maxEdges"])
+    itab("nEdgesOnCell", ["nCells"])
+    itab("cellsOnVertex", ["nVertices", "vertexDegree"])
     if src.get("verticesOnEdge"):
-        ds["verticesOnEdge"] = xr.DataArray(np.array(src["verticesOnEdge"], dtype=i32), dims=["nEdges", "TWO"])
-        ds["cellsOnEdge"] = xr.DataArray(np.array(src["cellsOnEdge"], dtype=i32), dims=["nEdges", "TWO"])
-        if dual:
-            ds["edgesOnVertex"] = xr.DataArray(np.array(src["edgesOnVertex"], dtype=i32), dims=["nVertices", "vertexDegree"])
+        itab("verticesOnEdge", ["nEdges", "TWO"])
+        itab("cellsOnEdge", ["nEdges", "TWO"])
+        if src.get("edgesOnVertex"):
+            itab("edgesOnVertex", ["nVertices", "vertexDegree"])
+        if src.get("edgesOnCell"):
+            itab("edgesOnCell", ["nCells", "maxEdges"])
+        if src.get("cellsOnCell"):
+            itab("cellsOnCell", ["nCells", "maxEdges"])
+        if src.get("areaTriangle"):
             ds["areaTriangle"] = xr.DataArray(np.array(src["areaTriangle"], dtype=float) / AREA_SCALE, dims=["nVertices"])
-        else:
-            ds["edgesOnCell"] = xr.DataArray(np.array(src["edgesOnCell"], dtype=i32), dims=["nCells", "maxEdges"])
+        if src.get("areaCell"):
             ds["areaCell"] = xr.DataArray(np.array(src["areaCell"], dtype=float) / AREA_SCALE, dims=["nCells"])
-        ds["dvEdge"] = xr.DataArray(np.array(src["dvEdge"], dtype=float) / DIST_SCALE, dims=["nEdges"])
-        ds["dcEdge"] = xr.DataArray(np.array(src["dcEdge"], dtype=float) / DIST_SCALE, dims=["nEdges"])
+        if src.get("dvEdge"):
+            ds["dvEdge"] = xr.DataArray(np.array(src["dvEdge"], dtype=float) / DIST_SCALE, dims=["nEdges"])
+            ds["dcEdge"] = xr.DataArray(np.array(src["dcEdge"], dtype=float) / DIST_SCALE, dims=["nEdges"])
         ds.attrs["sphere_radius"] = 1.0
     ds.attrs["on_a_sphere"] = "YES"
     return ds
+
+
+def _mpas_ds(case, mesh):
+    return mpas_dataset(case["src"], mesh["nodes"], mesh["centres"])
 
 
 def _scrip_ds(case, mesh):
@@ -491,11 +516,45 @@ def _quiet():
     return contextlib.redirect_stdout(io.StringIO())
 
 
-def open_case(case, mesh, work, disk):
-    """Materialise the source of `case` and open it through the public API; returns (grid, how)."""
+def fingerprint(obj):
+    """Deep fingerprint of an input object: everything a later reader of the same object could see."""
+    import hashlib
+
+    import xarray as xr
+
+    def arr(a):
+        a = np.asarray(a)
+        return (str(a.dtype), a.shape, hashlib.sha1(np.ascontiguousarray(a).tobytes()).hexdigest())
+
+    if isinstance(obj, xr.Dataset):
+        out = {"__dims__": repr(sorted(obj.sizes.items())), "__attrs__": repr(sorted((k, repr(v)) for k, v in obj.attrs.items()))}
+        for name in sorted(obj.variables):
+            v = obj.variables[name]
+            out[str(name)] = (v.dims, arr(v.values), repr(sorted((k, repr(x)) for k, x in v.attrs.items())),
+                              repr(sorted((k, repr(x)) for k, x in v.encoding.items())))
+        return out
+    if isinstance(obj, dict):
+        return {str(k): fingerprint(v) for k, v in sorted(obj.items())}
+    if isinstance(obj, np.ndarray):
+        return {"__array__": arr(obj) + (bool(obj.flags.writeable),)}
+    return {"__value__": (type(obj).__name__, repr(obj))}
+
+
+def changed_parts(fp0, fp1):
+    return sorted(k for k in set(fp0) | set(fp1) if fp0.get(k) != fp1.get(k))
+
+
+def prepare(case, mesh, work, disk):
+    """Materialise the source of `case` ONCE.  Returns (input object or None for files, decode(opt), cleanup):
+    decode(opt) opens that same object / file through the public API with option opt
+    ("same" | "primal" | "dual") and returns (grid, how)."""
     ux = hux.import_ux()
     route = case["route"]
     base = os.path.join(work, "src_%d_%s" % (os.getpid(), abs(hash(case["id"])) % 10**9))
+
+    def use_dual(opt):
+        return opt == "dual" or (opt == "same" and route == "mpas_dual")
+
     if route in ("ugrid", "mpas", "mpas_dual", "scrip", "exodus", "esmf", "geos", "icon"):
         ds = {
             "ugrid": _ugrid_ds,
@@ -507,53 +566,60 @@ def open_case(case, mesh, work, disk):
             "geos": _geos_ds,
             "icon": _icon_ds,
         }[route](case, mesh)
-        dual = route == "mpas_dual"
         if disk:
             path = base + ".nc"
             enc = _disk_encoding(ds)
             if route == "esmf" and case["d"].get("padv") == "m1":
                 enc["elementConn"] = {"_FillValue": np.int32(-1)}  # what ESMF's own writer declares
             ds.to_netcdf(path, encoding=enc)
-            try:
-                g = ux.open_grid(path, use_dual=dual)
-                # everything the projection needs is loaded by the readers; release the file
-                return g, "file"
-            finally:
+
+            def cleanup():
                 try:
                     os.remove(path)
                 except OSError:
                     pass
+
+            return None, (lambda opt: (ux.open_grid(path, use_dual=use_dual(opt)), "file")), cleanup
         if case.get("k", 0) % 2:
-            return ux.Grid.from_dataset(ds, use_dual=dual), "from_dataset"
-        return ux.open_grid(ds, use_dual=dual), "open_grid"
+            return ds, (lambda opt: (ux.Grid.from_dataset(ds, use_dual=use_dual(opt)), "from_dataset")), (lambda: None)
+        return ds, (lambda opt: (ux.open_grid(ds, use_dual=use_dual(opt)), "open_grid")), (lambda: None)
     if route == "geo":
         path = _geo_file(case, mesh, base)
-        try:
+
+        def dec(opt):
             with _quiet():  # the reader prints CRS information
                 return ux.Grid.from_file(path), "from_file"
-        finally:
+
+        def cleanup():
             import shutil
 
             if path.endswith(".geojson"):
                 os.remove(path)
             else:
                 shutil.rmtree(os.path.dirname(path), ignore_errors=True)
+
+        return None, dec, cleanup
     if route == "verts":
         v = _verts_input(case, mesh)
         latlon = case["src"]["coords"] == "lonlat"
         if case["src"]["via"] == "open_grid":
-            return ux.open_grid(v, latlon=latlon), "open_grid"
-        return ux.Grid.from_face_vertices(v, latlon=latlon), "from_face_vertices"
+            return v, (lambda opt: (ux.open_grid(v, latlon=latlon), "open_grid")), (lambda: None)
+        return v, (lambda opt: (ux.Grid.from_face_vertices(v, latlon=latlon), "from_face_vertices")), (lambda: None)
     if route == "topology":
         kw = _topology_kwargs(case, mesh)
         if case["src"]["via"] == "open_grid":
-            return ux.open_grid(kw), "open_grid"
-        return ux.Grid.from_topology(**kw), "from_topology"
+            return kw, (lambda opt: (ux.open_grid(kw), "open_grid")), (lambda: None)
+        return kw, (lambda opt: (ux.Grid.from_topology(**kw), "from_topology")), (lambda: None)
     raise ValueError(route)
 
 
+def case_tol(case):
+    """Positions are matched to the precision the source stores them with."""
+    return 1e-6 if case["src"].get("store") == "u32f32" else TOL
+
+
 # ----------------------------------------------------------------------------- projection
-def nearest_ids(lon, lat, dirs):
+def nearest_ids(lon, lat, dirs, tol=TOL):
     """Lattice id of every (lon, lat) in degrees by nearest match within TOL rad; -2 if none.
     Positions compare as directions, so a pole matches whatever its longitude."""
     lon = np.asarray(lon, dtype=float).ravel()
@@ -566,7 +632,7 @@ def nearest_ids(lon, lat, dirs):
         return []
     best = np.argmax(P @ U.T, axis=1)
     chord = np.linalg.norm(P - U[best], axis=1)  # exact near 0, unlike acos of the dot product
-    good = ok & (chord <= 2.0 * math.sin(TOL / 2.0))
+    good = ok & (chord <= 2.0 * math.sin(tol / 2.0))
     return [int(b) if g else -2 for b, g in zip(best, good)]
 
 
@@ -587,14 +653,15 @@ def project(g, case, mesh):
     rows, dt["face_node"], fl["face_node"] = hux.table(g.face_node_connectivity)
     got["tbl"] = rows
     nlon, nlat = g.node_lon.values, g.node_lat.values
-    got["node_pos"] = nearest_ids(nlon, nlat, mesh["nodes"])
+    tol = case_tol(case)
+    got["node_pos"] = nearest_ids(nlon, nlat, mesh["nodes"], tol)
     lon_ok = _range_ok(nlon, -180.0, 180.0)
     lat_ok = _range_ok(nlat, -90.0, 90.0)
     car = case["carried"]
     if "centres" in car:
         if "face_lon" in g._ds and "face_lat" in g._ds:
             flon, flat = g.face_lon.values, g.face_lat.values
-            got["centres"] = nearest_ids(flon, flat, mesh["centres"])
+            got["centres"] = nearest_ids(flon, flat, mesh["centres"], tol)
             lon_ok = lon_ok and _range_ok(flon, -180.0, 180.0)
             lat_ok = lat_ok and _range_ok(flat, -90.0, 90.0)
     names = {
@@ -642,23 +709,56 @@ def run_case(arg):
         "nn": case["nn"],
         "disk": bool(disk),
     }
+    rec["modes"], rec["exps"] = case["modes"], case["exps"]
+    cleanup = None
     try:
-        g, how = open_case(case, mesh, work, disk)
+        inp, decode, cleanup = prepare(case, mesh, work, disk)
+        fp0 = fingerprint(inp) if inp is not None else None
+        plan = case["plan"]
+        g, how = decode(plan[0])
         rec["how"] = how
         rec["got"] = project(g, case, mesh)
+        kept, later = [], []
+        if fp0 is not None:
+            kept.append(fingerprint(inp) == fp0)
+        # Decode ; Decode ... over the SAME input object (a file on disk: the same path)
+        for opt in plan[1:]:
+            try:
+                g2, _ = decode(opt)
+                nlon, nlat = g2.node_lon.values, g2.node_lat.values
+                rows, _, _ = hux.table(g2.face_node_connectivity)
+                later.append({"n_face": int(g2.n_face), "n_node": int(g2.n_node), "tbl": rows,
+                              "node_pos": nearest_ids(nlon, nlat, mesh["nodes"], case_tol(case))})
+            except Exception as e:
+                rec["error_later"] = "decoding #%d (%s) of the same input: %s: %s%s" % (len(later) + 2, opt, type(e).__name__, str(e)[:140], _where(e))
+                break
+            if fp0 is not None:
+                fp = fingerprint(inp)
+                kept.append(fp == fp0)
+                if fp != fp0 and "changed" not in rec:
+                    rec["changed"] = changed_parts(fp0, fp)[:8]
+        if fp0 is not None:
+            if not kept[0] and "changed" not in rec:
+                rec["changed"] = changed_parts(fp0, fingerprint(inp))[:8]
+            rec["kept"] = kept
+        rec["later"] = later
     except NotRepresentable as e:
         rec["skip"] = str(e)[:200]
     except Exception as e:  # the property promises a Grid for every well-formed source
-        import traceback
-
-        tb = traceback.extract_tb(e.__traceback__)
-        where = ""
-        for fr in reversed(tb):
-            if "/uxarray/" in fr.filename:
-                where = " @ %s:%d" % (fr.filename.split("/uxarray/")[-1], fr.lineno)
-                break
-        rec["error"] = "%s: %s%s" % (type(e).__name__, str(e)[:160], where)
+        rec["error"] = "%s: %s%s" % (type(e).__name__, str(e)[:160], _where(e))
+    finally:
+        if cleanup is not None:
+            cleanup()
     return rec
+
+
+def _where(e):
+    import traceback
+
+    for fr in reversed(traceback.extract_tb(e.__traceback__)):
+        if "/uxarray/" in fr.filename:
+            return " @ %s:%d" % (fr.filename.split("/uxarray/")[-1], fr.lineno)
+    return ""
 
 
 # ----------------------------------------------------------------------------- sample files (code -> spec)
